@@ -293,6 +293,18 @@ def _find_coding(text):
         result = text[start:end]
         if isinstance(result, bytes):
             result = result.decode("utf-8")
-        return result
+        return _normal_coding_name(result)
     except ValueError:
         pass
+
+
+def _normal_coding_name(name):
+    # Python reads "utf-8-unix", "latin-1-dos", ... (the forms Emacs writes)
+    # as utf-8 / iso-8859-1 although no codec has such a name; see
+    # get_normal_name() in CPython's tokenizer.
+    enc = name[:12].lower().replace("_", "-")
+    if enc.startswith("utf-8-"):
+        return "utf-8"
+    if enc.startswith(("latin-1-", "iso-8859-1-", "iso-latin-1-")):
+        return "iso-8859-1"
+    return name
